@@ -61,3 +61,120 @@ theorem scanFrom_evaluated_lt {σ : Type} (β : Beh σ) (t : Time) (fuel i : Nat
         · exact Or.inr (by omega)
 
 end HgVerif.Sched
+
+namespace HgVerif.Sched
+
+def slotOf (g : G) (j : Nat) : Time := g.slots.getD j 0
+
+theorem getD_set (l : List Time) (a : Nat) (v : Time) (j : Nat) (ha : a < l.length) :
+    (l.set a v).getD j 0 = if j = a then v else l.getD j 0 := by
+  by_cases h : j = a
+  · subst h; simp [List.getD, ha]
+  · simp only [List.getD, List.getElem?_set, h, ↓reduceIte]
+    have : ¬ a = j := fun e => h e.symm
+    simp [this]
+
+/-- the guard of `schedule_node_impl` -/
+def accepts (g : G) (r : Req) : Prop := slotOf g r.node ≤ g.now ∨ r.time < slotOf g r.node
+
+instance (g : G) (r : Req) : Decidable (accepts g r) := by unfold accepts; exact inferInstance
+
+theorem scheduleNode_slots (g : G) (r : Req) (j : Nat) (hlen : r.node < g.slots.length) :
+    slotOf (scheduleNode g r) j = if j = r.node ∧ accepts g r then r.time else slotOf g j := by
+  unfold scheduleNode accepts slotOf
+  simp only
+  split
+  · rename_i h
+    simp only [Bool.or_eq_true, decide_eq_true_eq] at h
+    rw [getD_set _ _ _ _ hlen]
+    by_cases hj : j = r.node
+    · simp only [hj, ↓reduceIte, true_and]; rw [if_pos h]
+    · simp only [hj, ↓reduceIte, false_and]
+  · rename_i h
+    simp only [Bool.or_eq_true, decide_eq_true_eq] at h
+    rw [if_neg (fun hc => h hc.2)]
+
+theorem scheduleNode_next (g : G) (r : Req) :
+    (scheduleNode g r).next =
+      if accepts g r ∧ g.now < r.time ∧ olt r.time g.next = true then some r.time else g.next := by
+  unfold scheduleNode accepts slotOf
+  simp only [List.getD_eq_getElem?_getD]
+  by_cases h : (g.slots[r.node]?.getD 0 ≤ g.now ∨ r.time < g.slots[r.node]?.getD 0)
+  · by_cases h1 : g.now < r.time
+    · by_cases h2 : olt r.time g.next = true
+      · simp [h, h1, h2]
+      · simp [h, h1, h2]
+    · simp [h, h1]
+  · simp [h]
+
+theorem scheduleNode_length (g : G) (r : Req) : (scheduleNode g r).slots.length = g.slots.length := by
+  unfold scheduleNode; simp only; split <;> simp
+
+theorem scheduleNode_now (g : G) (r : Req) : (scheduleNode g r).now = g.now := by
+  unfold scheduleNode; simp only; split <;> rfl
+
+theorem olt_some (t n : Time) : olt t (some n) = true ↔ t < n := by simp [olt]
+theorem olt_none (t : Time) : olt t none = true := rfl
+
+/-- membership in the accumulator is preserved by the scan -/
+theorem scanFrom_mem_acc {σ : Type} (β : Beh σ) (t : Time) (fuel i : Nat) (g : G) (u : σ) (ev : List Nat) (x : Nat)
+    (hx : x ∈ ev) : x ∈ (scanFrom β t fuel i g u ev).evaluated := by
+  induction fuel generalizing i g u ev with
+  | zero => simpa [scanFrom] using hx
+  | succ fuel ih =>
+    unfold scanFrom; simp only
+    split
+    · split
+      · exact ih _ _ _ _ (by simp [hx])
+      · simp [hx]
+    · split
+      · exact ih _ _ _ _ hx
+      · exact ih _ _ _ _ hx
+
+/-! ### unfolding equations of the scan -/
+
+theorem scanFrom_zero {σ : Type} (β : Beh σ) (t : Time) (i : Nat) (g : G) (u : σ) (ev : List Nat) :
+    scanFrom β t 0 i g u ev = { g := { g with cursor := 0 }, st := u, evaluated := ev, ok := true } := rfl
+
+theorem scanFrom_eval_ok {σ : Type} (β : Beh σ) (t : Time) (fuel i : Nat) (g : G) (u : σ) (ev : List Nat)
+    (hs : slotOf g i = t) (hok : (β.eval i t u).ok = true) :
+    scanFrom β t (fuel + 1) i g u ev =
+      scanFrom β t fuel (i + 1) ((β.eval i t u).reqs.foldl scheduleNode { g with cursor := i })
+        (β.eval i t u).st (ev ++ [i]) := by
+  have hs' : g.slots.getD i 0 = t := hs
+  rw [scanFrom]; simp only [hs', ↓reduceIte, hok]
+
+theorem scanFrom_eval_fail {σ : Type} (β : Beh σ) (t : Time) (fuel i : Nat) (g : G) (u : σ) (ev : List Nat)
+    (hs : slotOf g i = t) (hok : (β.eval i t u).ok = false) :
+    (scanFrom β t (fuel + 1) i g u ev).ok = false := by
+  have hs' : g.slots.getD i 0 = t := hs
+  rw [scanFrom]; simp only [hs', ↓reduceIte, hok]; rfl
+
+theorem scanFrom_fold {σ : Type} (β : Beh σ) (t : Time) (fuel i : Nat) (g : G) (u : σ) (ev : List Nat)
+    (hs : t < slotOf g i) :
+    scanFrom β t (fuel + 1) i g u ev =
+      scanFrom β t fuel (i + 1) { g with next := omin g.next (slotOf g i), cursor := i } u ev := by
+  have hs' : t < g.slots.getD i 0 := hs
+  have hne : ¬ g.slots.getD i 0 = t := by omega
+  rw [scanFrom]; simp only [hne, ↓reduceIte, hs', gt_iff_lt]; rfl
+
+theorem scanFrom_skip {σ : Type} (β : Beh σ) (t : Time) (fuel i : Nat) (g : G) (u : σ) (ev : List Nat)
+    (hs : slotOf g i < t) :
+    scanFrom β t (fuel + 1) i g u ev = scanFrom β t fuel (i + 1) { g with cursor := i } u ev := by
+  have hs' : g.slots.getD i 0 < t := hs
+  have hne : ¬ g.slots.getD i 0 = t := by omega
+  have hng : ¬ g.slots.getD i 0 > t := by omega
+  rw [scanFrom]; simp only [hne, ↓reduceIte, hng]
+
+theorem foldl_scheduleNode_length (reqs : List Req) (g : G) :
+    (reqs.foldl scheduleNode g).slots.length = g.slots.length := by
+  induction reqs generalizing g with
+  | nil => rfl
+  | cons r rest ih => rw [List.foldl_cons, ih, scheduleNode_length]
+
+theorem foldl_scheduleNode_now (reqs : List Req) (g : G) : (reqs.foldl scheduleNode g).now = g.now := by
+  induction reqs generalizing g with
+  | nil => rfl
+  | cons r rest ih => rw [List.foldl_cons, ih, scheduleNode_now]
+
+end HgVerif.Sched
